@@ -6,7 +6,7 @@ PROPERTY = {
     "explanation": "the real insert / remove / lookup code run on EVERY valid AVL tree of depth <= 3 (<= 7 nodes; one unit per tree shape, keys/positions symbolic; depth <= 4 = up to 15 nodes in the thorough tier), every key position (new or resident) and every node to remove; the result is judged by a recursive checker over the actual links (search order, parent links, stored balance factor == height difference, |difference| <= 1) and by node count + lookups (element set)",
     "trusted_base": ["cbmc 6.11.0 (SAT back end CaDiCaL)"],
     "assumptions": [
-        "induction over histories: every operation is verified from every valid tree of the bounded depth; UNBOUNDED part: window lemmas avl_lemma_growth / avl_lemma_shrink prove the retrace steps a_avl_handle_growth / a_avl_handle_shrink (with a_avl_rotate / a_avl_rotate2, packed layout) for subtrees of every size (ghost heights up to 2^20): valid window + height restored, or the step invariant one level up; the induction over the climb loop is a paper step. The glue (descent, first adjustment, successor splice in a_avl_handle_remove) is decided only on the bounded whole trees",
+        "induction over histories: every operation is verified from every valid tree of the bounded depth; UNBOUNDED part: window lemmas avl_lemma_growth / avl_lemma_shrink prove the retrace steps a_avl_handle_growth / a_avl_handle_shrink (with a_avl_rotate / a_avl_rotate2, packed layout) for subtrees of every size (ghost heights up to 2^20): valid window + height restored, or the step invariant one level up; the induction over the climb loop is a paper step. Glue lemmas (same windows, the retrace step replaced by a recording stand-in through DFCC contract replacement): avl_lemma_insert_first(_root) - a_avl_insert_adjust either absorbs the new leaf (valid window, no step) or starts exactly one step at (grandparent, parent, side) in a heap that IS the step invariant J_grow; avl_lemma_unlink_simple(_root) - a_avl_remove of a node with at most one child hands exactly J_shrink to the first step (or installs the child as root); avl_lemma_splice / avl_lemma_splice_remove - the successor splice a_avl_handle_remove (spine depth <= 2) directly and through a_avl_remove's two-child path incl. the side handed to the first step. Not covered by a lemma: the descent/search loops, successors deeper than two levels (bounded whole trees only)",
         "whole-tree units use the node layout with separate parent/factor fields (A_SIZE_POINTER=1): cbmc cannot propagate pointers through the packed parent word ((uintptr)parent | factor+1) and the packed whole-tree encoding needs > 40 GB. The packed layout is covered by accessor round-trip proofs (unit packed_accessors, all parent pointers and factors/colours) and, in the thorough tier only, by packed whole-tree units on trees of depth <= 2 (heavy: minutes and tens of GB); the few layout-specific lines outside the accessors (a_avl_handle_remove copies the packed word) are only exercised there",
         "the comparison callback returns the key difference (any magnitude): only its sign may be used",
     ],
@@ -33,6 +33,17 @@ UNITS += [
     U("avl_lemma_splice", "avl_lemma.c", "h_splice", level="L", functions=["a_avl_handle_remove", "a_avl_new_child", "a_avl_set_parent"], min_obl=3, unwind=7,
       replay={"prog": "trees_search.c", "sources": ["avl.c", "rbt.c"], "mode": "avl", "timeout": 600}, bound="successor at most 2 levels down the left spine of the right child (subtree heights unbounded)",
       cbmc=["--object-bits", "10"], solver="cadical", timeout=900, key=["handle_remove"]),
+    U("avl_lemma_splice_remove", "avl_lemma.c", "h_splice", level="L", functions=["a_avl_remove", "a_avl_handle_remove", "a_avl_new_child", "a_avl_set_parent"], min_obl=3, unwind=7, defines=["VIA_REMOVE"], replace=["a_avl_handle_shrink/contract_a_avl_handle_shrink"],
+      replay={"prog": "trees_search.c", "sources": ["avl.c", "rbt.c"], "mode": "avl", "timeout": 600}, bound="successor at most 2 levels down the left spine of the right child (subtree heights unbounded)",
+      cbmc=["--object-bits", "10"], solver="cadical", timeout=900, key=["handle_remove"]),
+] + [
+    U("avl_lemma_" + nm, "avl_lemma.c", "h_" + nm, level="L", functions=fns, min_obl=3, unwind=12,
+      replace=["a_avl_handle_growth/contract_a_avl_handle_growth", "a_avl_handle_shrink/contract_a_avl_handle_shrink"],
+      replay={"prog": "trees_search.c", "sources": ["avl.c", "rbt.c"], "mode": "avl", "timeout": 600},
+      cbmc=["--object-bits", "10"], solver="cadical", timeout=600, key=[k])
+    for nm, fns, k in (("insert_first", ["a_avl_insert_adjust"], "insert_adjust: the state handed"), ("insert_first_root", ["a_avl_insert_adjust"], "parent is the root"),
+                       ("unlink_simple", ["a_avl_remove"], "remove \\(simple unlink\\): the child replaces"), ("unlink_simple_root", ["a_avl_remove"], "the child becomes the root"))
+] + [
     U("avl_packed_accessors", "trees.c", "h_packed", level="P", functions=["a_avl_set_parent_factor", "a_avl_set_parent", "a_avl_set_factor", "a_avl_parent", "a_avl_factor", "a_avl_init"], replay=RP, min_obl=3, defines=["D=2"], cbmc=["--object-bits", "10"]),
     T("avl_insert_d2_packed", "h_insert", 2, tiers=("thorough",), functions=INS, timeout=1800, cost=100, mem_gb=40),
     T("avl_remove_d2_packed", "h_remove", 2, tiers=("thorough",), functions=REM, timeout=1800, cost=100, mem_gb=40),
